@@ -45,7 +45,8 @@ def build_roots():
     return roots, meta
 
 
-def scalar_op(op, x, y):
+def scalar_op(op, x, y, elem='f32'):
+    if elem == 'i32' and op in ('div', 'rem'): return fn('idiv' if op == 'div' else 'irem', x, y)
     if op == 'add': return x + y
     if op == 'sub': return x - y
     if op == 'mul': return x * y
@@ -101,10 +102,10 @@ def run(ctx):
             vec_eq(ctx, key, p.ret, vecmat(v, A), 'alg=: (v*A)(j) = sum_k v(k)*A(k,j)', r.code)
         elif k == 'ms':
             s = sym('a1')
-            grid_eq(ctx, key, mgrid(p.ret, la, n), [[scalar_op(m['op'], A[i][j], s) for j in range(n)] for i in range(n)], 'alg=: scalar operand acts per element', r.code)
+            grid_eq(ctx, key, mgrid(p.ret, la, n), [[scalar_op(m['op'], A[i][j], s, ctx.elem) for j in range(n)] for i in range(n)], 'alg=: scalar operand acts per element', r.code)
         elif k == 'ew':
             Bm = msyms('a1', la, n)
-            grid_eq(ctx, key, mgrid(p.ret, la, n), [[scalar_op(m['op'], A[i][j], Bm[i][j]) for j in range(n)] for i in range(n)], 'alg=: element-wise operator acts per element', r.code)
+            grid_eq(ctx, key, mgrid(p.ret, la, n), [[scalar_op(m['op'], A[i][j], Bm[i][j], ctx.elem) for j in range(n)] for i in range(n)], 'alg=: element-wise operator acts per element', r.code)
         elif k == 'neg':
             grid_eq(ctx, key, mgrid(p.ret, la, n), [[-A[i][j] for j in range(n)] for i in range(n)], 'alg=: negation per element', r.code)
         elif k == 'const':
